@@ -67,7 +67,8 @@ Proof. vm_compute. split; [reflexivity|discriminate]. Qed.
    loop families regenerated from dd_dtw.c): what dtw_expand_wps[_slice] returns at a cell is what the fill kernel
    stored for that cell.  (That the stored VALUE is the recurrence's is the correspondence leg; the compact content is
    also judged directly through the layout.) *)
-From DV Require Import CWps CFill CExpand.
+From Coq Require Import String.
+From DV Require Import CWps CFill CExpand CFillSim.
 From DVGen Require Import Gen_cfill Gen_cexpand.
 
 Theorem C04_c_fill_and_expand_agree_on_the_slot : forall l1 l2 window0 rb re cb ce,
@@ -77,3 +78,19 @@ Theorem C04_c_fill_and_expand_agree_on_the_slot : forall l1 l2 window0 rb re cb 
 Proof.
   intros. split; [apply fill_regions_follow_the_layout; assumption|apply expand_regions_follow_the_layout; assumption].
 Qed.
+
+(* What the C fill loops STORE: the loops as written (row by row, cell by cell, every value computed from the array at the
+   regenerated offsets with the recurrence text the translator checks, the rest of each row infinite) leave an array that
+   holds the specification matrix through the layout -- every slot of every row; the border column only in the rows above
+   the left overlap, where the kernels keep it (this is the border difference recorded as finding F23). *)
+Theorem C04_c_fill_stores_the_matrix : forall l1 l2 window0, (1 <= l1)%Z -> (1 <= l2)%Z -> (0 <= window0)%Z ->
+  forall (d : nat -> nat -> cost) pen p1b p2b,
+  (forall ri ci : nat, (Z.of_nat ri < l1)%Z ->
+     ~ (blo l1 l2 window0 (Z.of_nat ri) <= Z.of_nat ci < bhi l1 l2 window0 (Z.of_nat ri))%Z -> d ri ci = Inf) ->
+  forall i, (Z.of_nat i <= l1)%Z -> holds l1 l2 window0 d pen p1b p2b i (stored l1 l2 window0 d pen p1b p2b i).
+Proof. exact stored_holds. Qed.
+
+Theorem C04_c_recurrence_texts : forall r, In r fill_regions ->
+  (fr_kernel r = "dtw_warping_paths_ndim" \/ fr_kernel r = "dtw_warping_paths_ndim_euclidean")%string ->
+  fr_recurrence r = "MIN3:W+p.penalty,W,W+p.penalty;store=d+MIN3"%string.
+Proof. exact distance_kernels_use_min3. Qed.
